@@ -144,7 +144,7 @@ def gen_graph(rng, n_nodes=8, n_classes=3, n_props=4, bnodes=False,
             nodes.append(iri(EX + "n%d" % i))
     triples = set()
     for n in nodes:
-        k = rng.choice([0, 1, 1, 1, 2]) if multi_class else rng.choice([0, 1, 1, 1])
+        k = rng.choice([0, 1, 1, 1, 2, 2, 3]) if multi_class else rng.choice([0, 1, 1, 1])
         for c in rng.sample(classes, min(k, len(classes))):
             triples.add((n, iri(RDF_TYPE), iri(c)))
     # per property a dominant kind so that shapes are not pure noise
@@ -155,7 +155,9 @@ def gen_graph(rng, n_nodes=8, n_classes=3, n_props=4, bnodes=False,
                 m = rng.choice([1, 1, 1, 2, 3])
                 kind = dom[p] if rng.random() < 0.7 else rng.choice(kinds)
                 for _ in range(m):
-                    triples.add((n, iri(p), _value(rng, kind, nodes)))
+                    # mostly one kind per (node, property), sometimes mixed kinds
+                    k2 = kind if rng.random() < 0.8 else rng.choice(kinds)
+                    triples.add((n, iri(p), _value(rng, k2, nodes)))
     return sorted(triples, key=repr)
 
 
@@ -342,9 +344,16 @@ def _pname_ok(local):
     return re.match(r"^[A-Za-z][A-Za-z0-9_]*$", local) is not None
 
 
-def to_turtle(triples, group=True, use_a=True):
-    """Turtle with @prefix lines, prefixed names, 'a', ';' and ',' grouping."""
+def to_turtle(triples, group=True, use_a=True, dialect="standard"):
+    """Turtle with @prefix lines, prefixed names, 'a', ';' and ',' grouping.
+    dialect='iter': the subset sheXer's streaming reader documents (closures are
+    separate tokens; datatypes written with the xsd: prefix or as full IRIs)."""
     table = _prefix_table(triples)
+    if dialect == "iter":
+        if XSD in table:
+            table[XSD] = "xsd"
+        if RDF_NS in table:
+            table[RDF_NS] = "rdf"
 
     def term(t, pred=False):
         if t[0] == "i":
